@@ -275,6 +275,7 @@ Section OpsV.
     | OpReleaseByHandle h hint => release_by_handle cf h hint
     | OpClaimAffinity c => claim_aff_loop_v R host c
     | OpReleaseAffinity c must => release_aff_loop R host c must
+    | OpAutoAssignM _ _ _ _ _ | OpAssignIPM _ _ _ _ _ => Ret (ResErr EOutOfModel)   (* see compile_w *)
     end.
 End OpsV.
 
@@ -297,6 +298,242 @@ Definition start_client_v (cf : config) (fx : bool) (host : N) (ops : list op) :
       let '(cur, todo, _) := settle_v cf fx (length ops) host (compile_v cf fx host o) t [] in
       {| cl_host := host; cl_cur := cur; cl_todo := todo; cl_crashed := false |}
   end.
+
+(* ------------------------------------------------------------------------------------------------------------
+   MaxAllocToHandlePerIPVersion (ma > 0): incrementHandle refuses to go beyond ma addresses per handle
+   (ErrMaxAllocReached, nothing written); the caller then looks for addresses the handle already has
+   (handleMaxAllocReached -> IPsByHandle) and either reuses them (idempotent success), or retries ("a concurrent
+   operation on the same handle is in progress"), or fails.  AssignIP also has the shortcut "address already
+   assigned, and to this very handle -> success".  Programs of the fixed code only (handle incremented by the
+   number of addresses taken; AssignIP rolls back before retrying).  hint = the order in which IPsByHandle visited
+   the blocks of the handle (Go map iteration). *)
+Section OpsM.
+  Variable cf : config.
+  Variable fx : bool.
+  Let R := cf_retries cf.
+
+  Definition htotal (m : hmap) : N := fold_right (fun p acc => (snd p + acc)%N) 0%N m.
+
+  Definition ips_of (b : block) (h : N) : list N :=
+    map (fun o => (bk_cidr b + N.of_nat o)%N)
+        (filter (fun o => match owner_of b o with
+                          | Some x => optN_eqb (at_handle x) (Some h)
+                          | None => false end) (seq 0 (length (bk_allocs b)))).
+
+  Inductive inc_res := IOk | IErr (e : err) | IMax.
+
+  (* ipamClient.incrementHandle with maxAlloc > 0 *)
+  Fixpoint inc_handle_m (fuel : nat) (h c : N) (n : N) (ma : N) : prog inc_res :=
+    match fuel with
+    | O => Ret (IErr EMaxRetries)
+    | S f =>
+      r <- get_handle h ;;
+      match r with
+      | inr ENotFound =>
+          if N.ltb ma n then Ret IMax else
+          w <- create_handle h (hinc [] c n) ;;
+          match w with inl _ => Ret IOk | inr _ => inc_handle_m f h c n ma end
+      | inr e => Ret (IErr e)
+      | inl (m, rev) =>
+          if N.ltb ma (htotal m + n) then Ret IMax else
+          w <- update_handle h (hinc m c n) rev ;;
+          match w with inl _ => Ret IOk | inr _ => inc_handle_m f h c n ma end
+      end
+    end.
+
+  (* ipamClient.IPsByHandle *)
+  Fixpoint ibh_blocks (cs : list N) (h : N) (acc : list N) : prog (list N) :=
+    match cs with
+    | [] => Ret acc
+    | c :: t =>
+        g <- get_block c ;;
+        match g with
+        | inr _ => ibh_blocks t h acc
+        | inl (b, _) => ibh_blocks t h (acc ++ ips_of b h)
+        end
+    end.
+  Definition ips_by_handle (h : N) (hint : list N) : prog (res (list N)) :=
+    r <- get_handle h ;;
+    match r with
+    | inr e => Ret (inr e)
+    | inl (m, _) => l <- ibh_blocks (map fst (order_by hint m)) h [] ;; Ret (inl l)
+    end.
+
+  (* ipamClient.handleMaxAllocReached: Some ips = enough existing addresses, reuse exactly num of them; None = retry *)
+  Definition handle_max (h : N) (num : nat) (hint : list N) : prog (option (list N)) :=
+    r <- ips_by_handle h hint ;;
+    match r with
+    | inr _ => Ret None
+    | inl ips => if Nat.leb num (length ips) then Ret (Some (firstn num ips)) else Ret None
+    end.
+
+  Inductive afm := AOk (ips : list N) | AErr (e : err) | AMax.
+
+  (* ipamClient.assignFromExistingBlock with maxAlloc *)
+  Definition assign_from_block_m (bk : block * N) (c : N) (num : nat) (h tag : N) (host : N) (aff_check : bool) (ma : N)
+    : prog afm :=
+    let '(b, rev) := bk in
+    match blk_auto_assign b num h tag aff_check host with
+    | None => Ret (AErr EOther)
+    | Some (b', ips) =>
+      match ips with
+      | [] => Ret (AOk [])
+      | _ =>
+        let cnt := N.of_nat (length ips) in
+        i <- inc_handle_m R h c cnt ma ;;
+        match i with
+        | IMax => Ret AMax
+        | IErr e => Ret (AErr e)
+        | IOk =>
+          w <- update_block c b' rev ;;
+          match w with
+          | inl _ => Ret (AOk ips)
+          | inr e => u_ <- dec_handle false R h c cnt None ;; Ret (AErr e)
+          end
+        end
+      end
+    end.
+
+  (* affine phase: the retry loop around one block; result = addresses to append *)
+  Fixpoint assign_retry_m (fuel : nat) (bk : block * N) (c : N) (rem num : nat) (h tag host : N) (ma : N) (hint : list N)
+    : prog (list N) :=
+    match fuel with
+    | O => Ret []
+    | S f =>
+      r <- assign_from_block_m bk c rem h tag host (cf_strict cf) ma ;;
+      match r with
+      | AOk ips => Ret ips
+      | AErr EConflict =>
+          g <- get_block c ;;
+          match g with inr _ => Ret [] | inl bk' => assign_retry_m f bk' c rem num h tag host ma hint end
+      | AMax =>
+          hm <- handle_max h num hint ;;
+          match hm with
+          | Some ips => Ret ips
+          | None =>
+              g <- get_block c ;;
+              match g with inr _ => Ret [] | inl bk' => assign_retry_m f bk' c rem num h tag host ma hint end
+          end
+      | AErr _ => Ret []
+      end
+    end.
+
+  (* non-affine phase: one block; the flag says "enough existing addresses were found: stop looking" *)
+  Fixpoint na_try_m (fuel : nat) (c : N) (rem num : nat) (h tag host : N) (ma : N) (hint : list N) : prog (list N * bool) :=
+    match fuel with
+    | O => Ret ([], false)
+    | S f =>
+      g <- get_block c ;;
+      match g with
+      | inr _ => Ret ([], false)
+      | inl bk =>
+          r <- assign_from_block_m bk c rem h tag host false ma ;;
+          match r with
+          | AOk ips => Ret (ips, false)
+          | AErr EConflict => na_try_m f c rem num h tag host ma hint
+          | AMax =>
+              hm <- handle_max h num hint ;;
+              match hm with
+              | Some ips => Ret (ips, true)
+              | None => na_try_m f c rem num h tag host ma hint
+              end
+          | AErr _ => Ret ([], false)
+          end
+      end
+    end.
+
+  Fixpoint na_loop_m (order : list N) (ips : list N) (num : nat) (h tag host : N) (ma : N) (hint : list N) : prog (list N) :=
+    match order with
+    | [] => Ret ips
+    | c :: rest =>
+        if Nat.leb num (length ips) then Ret ips
+        else nf <- na_try_m R c (num - length ips) num h tag host ma hint ;;
+             if snd nf then Ret (ips ++ fst nf) else na_loop_m rest (ips ++ fst nf) num h tag host ma hint
+    end.
+
+  Fixpoint aa_loop_m (fuel : nat) (ips : list N) (rem_aff : list N) (owned : nat) (num : nat) (h tag host : N)
+           (ma : N) (hint : list N) : prog result :=
+    if Nat.leb num (length ips) then Ret (ResIPs ips ENone) else
+    match fuel with
+    | O => Ret (ResIPs ips EOutOfModel)
+    | S f =>
+      fc <- find_or_claim_v cf fx rem_aff host (Nat.ltb owned (cf_maxblocks cf)) ;;
+      match fc with
+      | (inr ENoFree, _) =>
+          if negb (cf_strict cf) then
+            ips' <- na_loop_m (gen_order cf host) ips num h tag host ma hint ;; Ret (ResIPs ips' ENone)
+          else Ret (ResIPs ips ENone)
+      | (inr e, _) => Ret (ResIPs ips e)
+      | (inl (bk, c, newly), rem') =>
+          new <- assign_retry_m R bk c (num - length ips) num h tag host ma hint ;;
+          aa_loop_m f (ips ++ new) rem' (if newly then S owned else owned) num h tag host ma hint
+      end
+    end.
+
+  Definition auto_assign_m (host h tag : N) (num : nat) (ma : N) (hint : list N) : prog result :=
+    Act (RList (LAffs host)) (fun rs =>
+      match rs with
+      | RListed es =>
+          let affs := filter (in_pool cf) (aff_cidrs es) in
+          aa_loop_m 64 [] affs (length affs) num h tag host ma hint
+      | _ => Ret (ResIPs [] EOther)
+      end).
+
+  (* ipamClient.AssignIP with a handle and MaxAllocToHandlePerIPVersion > 0 *)
+  Fixpoint assign_ip_loop_m (fuel : nat) (host h tag : N) (a : N) (ma : N) (hint : list N) : prog result :=
+    let c := block_of cf a in
+    match fuel with
+    | O => Ret (ResErr EMaxRetries)
+    | S f =>
+      let continue (bk : block * N) : prog result :=
+        let '(b, brev) := bk in
+        match blk_assign b a h tag (cf_strict cf) host with
+        | inr EExists =>
+            (* already assigned: success iff it is assigned to this very handle *)
+            match owner_of b (ordinal_of b a) with
+            | Some x => if optN_eqb (at_handle x) (Some h) then Ret (ResErr ENone) else Ret (ResErr EExists)
+            | None => Ret (ResErr EExists)
+            end
+        | inr e => Ret (ResErr (nz e))
+        | inl b' =>
+            i <- inc_handle_m R h c 1 ma ;;
+            match i with
+            | IMax =>
+                hm <- handle_max h 1 hint ;;
+                match hm with
+                | None => assign_ip_loop_m f host h tag a ma hint
+                | Some ips => if existsb (N.eqb a) ips then Ret (ResErr ENone) else Ret (ResErr EOther)
+                end
+            | IErr _ => Ret (ResErr EOther)
+            | IOk =>
+                w <- update_block c b' brev ;;
+                match w with
+                | inl _ => Ret (ResErr ENone)
+                | inr EConflict => u_ <- dec_handle false R h c 1 None ;; assign_ip_loop_m f host h tag a ma hint
+                | inr e => u_ <- dec_handle false R h c 1 None ;; Ret (ResErr (nz e))
+                end
+            end
+        end in
+      g <- get_block c ;;
+      match g with
+      | inr ENotFound =>
+          pa <- get_pending_aff host c ;;
+          match pa with
+          | inr EConflict => assign_ip_loop_m f host h tag a ma hint
+          | inr e => Ret (ResErr (nz e))
+          | inl (_, affrev) =>
+              cb <- claim_affine_block_v cf fx host c affrev ;;
+              match cb with
+              | inr EConflict => assign_ip_loop_m f host h tag a ma hint
+              | inr e => Ret (ResErr (nz e))
+              | inl bk => continue bk
+              end
+          end
+      | inr e => Ret (ResErr (nz e))
+      | inl bk => continue bk
+      end
+    end.
+End OpsM.
 
 (* A second variant flag, for releaseByHandle (fixes/C19-releasebyhandle-notfound-no-decrement.patch):
      fy = false : when the compare-and-delete of the emptied non-affine block answers "not found", releaseByHandle
@@ -367,6 +604,8 @@ Section OpsW.
     | OpReleaseByHandle h hint => release_by_handle_w h hint
     | OpClaimAffinity c => claim_aff_loop_v cf fx R host c
     | OpReleaseAffinity c must => release_aff_loop R host c must
+    | OpAutoAssignM h tag num ma hint => auto_assign_m cf fx host h tag num ma hint
+    | OpAssignIPM h tag a ma hint => assign_ip_loop_m cf fx R host h tag a ma hint
     end.
 End OpsW.
 
